@@ -71,7 +71,8 @@ Record imol := mkimol {
 Record sobj := mkobj {
   o_imol : nat;            (* ref to the indexer object *)
   o_tc : nat;              (* ref to the ThermalCondition *)
-  o_views : list (phase * nat)   (* MultiStream._streams: phase -> object index *)
+  o_views : list (phase * nat);  (* MultiStream._streams: phase -> object index *)
+  o_hasv : bool                  (* the object has a _streams attribute (a proxy() of a MultiStream has none until reset_cache) *)
 }.
 Record state := mkst {
   rows : list vec;         (* SparseVector objects *)
@@ -90,7 +91,7 @@ Definition cs0 : cstate := mkcs [] [] [].
 Definition w0 : world := mkw st0 cs0.
 
 Definition d_imol := mkimol false O O [].
-Definition d_obj := mkobj O O [].
+Definition d_obj := mkobj O O [] false.
 Definition d_cobj := mkc O O O.
 Definition d_p := mkp O false.
 
@@ -250,7 +251,7 @@ Definition multi_to_single (s : state) (i : nat) (p : phase) : state :=
   let (s1, r) := new_row s (vsum_rows (data_rows s im)) in
   let (s2, pr) := new_p s1 (mkp p false) in
   let (s3, ir) := new_imol s2 (mkimol false r pr []) in
-  wr_obj s3 i (mkobj ir (o_tc o) []).
+  wr_obj s3 i (mkobj ir (o_tc o) [] true).
 
 Definition set_phase (s : state) (i : nat) (p : phase) : state * option err :=
   let im := imol_of s (o_imol (obj_of s i)) in
@@ -303,20 +304,20 @@ Definition copy_data (s : state) (im : imol) : state * nat :=
   else new_row s (row s (i_data im)).
 
 Definition st_proxy (s : state) (i : nat) : state :=
-  let o := obj_of s i in fst (new_obj s (mkobj (o_imol o) (o_tc o) [])).
+  let o := obj_of s i in fst (new_obj s (mkobj (o_imol o) (o_tc o) [] false)).
 Definition st_flow_proxy (s : state) (i : nat) : state :=
   let o := obj_of s i in
   let im := imol_of s (o_imol o) in
   let (s1, ir) := copy_imol_with s im (i_data im) in
   let (s2, tr) := new_tc s1 (tc_of s (o_tc o)) in
-  fst (new_obj s2 (mkobj ir tr [])).
+  fst (new_obj s2 (mkobj ir tr [] (i_multi im))).
 Definition st_copy (s : state) (i : nat) : state :=
   let o := obj_of s i in
   let im := imol_of s (o_imol o) in
   let (s1, d) := copy_data s im in
   let (s2, ir) := copy_imol_with s1 im d in
   let (s3, tr) := new_tc s2 (tc_of s (o_tc o)) in
-  fst (new_obj s3 (mkobj ir tr [])).
+  fst (new_obj s3 (mkobj ir tr [] (i_multi im))).
 
 (* Stream.link_with(other, flow, phase, TP) *)
 Definition link_with (s : state) (i j : nat) (fl ph tp : bool) : state * option err :=
@@ -324,10 +325,15 @@ Definition link_with (s : state) (i j : nat) (fl ph tp : bool) : state * option 
   let im := imol_of s (o_imol o) in let im2 := imol_of s (o_imol o2) in
   if negb (Bool.eqb (i_multi im) (i_multi im2)) then fail s ERuntime
   else
-    let s1 := if tp then wr_obj s i (mkobj (o_imol o) (o_tc o2) (o_views o)) else s in
+    let s1 := if tp then wr_obj s i (mkobj (o_imol o) (o_tc o2) (o_views o) (o_hasv o)) else s in
     let im1 := if fl then mkimol (i_multi im) (i_data im2) (i_ph im) (i_phases im) else im in
     let im1 := if ph && negb (i_multi im) then mkimol (i_multi im1) (i_data im1) (i_ph im2) (i_phases im1) else im1 in
     ok (wr_imol s1 (o_imol o) im1).
+
+(* MultiStream.reset_cache, state part: `self._streams = {}` when the attribute is missing *)
+Definition ensure_views (s : state) (i : nat) : state :=
+  let o := obj_of s i in
+  if is_multi s i then wr_obj s i (mkobj (o_imol o) (o_tc o) (o_views o) true) else s.
 
 (* Stream.unlink, state part (reset_cache is done by the caller) *)
 Definition unlink (s : state) (i : nat) : state * option err :=
@@ -339,7 +345,8 @@ Definition unlink (s : state) (i : nat) : state * option err :=
     let (s2, d) := copy_data s1 im in
     let s3 := wr_imol s2 (o_imol o) (mkimol (i_multi im) d pr (i_phases im)) in
     let (s4, tr) := new_tc s3 (tc_of s (o_tc o)) in
-    ok (wr_obj s4 i (mkobj (o_imol o) tr (o_views o))).
+    (* MultiStream.reset_cache creates _streams when the object has none *)
+    ok (wr_obj s4 i (mkobj (o_imol o) tr (o_views o) (o_hasv o || i_multi im))).
 
 (* Stream.phases = ps on a single-phase stream with >= 2 phases, current phase in ps:
    becomes a MultiStream whose row for the current phase holds a copy of the data *)
@@ -351,7 +358,7 @@ Definition single_to_multi (s : state) (i : nat) (ps : list phase) : state :=
   let (s1, rs) := new_rows s (map (fun q => if Nat.eqb q p then d else vzero (length d)) ps) in
   let (s2, a) := new_arr s1 rs in
   let (s3, ir) := new_imol s2 (mkimol true a O ps) in
-  wr_obj s3 i (mkobj ir (o_tc o) []).
+  wr_obj s3 i (mkobj ir (o_tc o) [] true).
 
 (* MaterialIndexer.to_material_indexer(ps) *)
 Definition multi_rephase (s : state) (i : nat) (ps : list phase) : state * option err :=
@@ -367,7 +374,17 @@ Definition multi_rephase (s : state) (i : nat) (ps : list phase) : state * optio
     let (s1, rs) := new_rows s (map content ps) in
     let (s2, a) := new_arr s1 rs in
     let (s3, ir) := new_imol s2 (mkimol true a O ps) in
-    ok (wr_obj s3 i (mkobj ir (o_tc o) (o_views o))).
+    (* cached sub-streams are re-attached to the new rows; those whose phase has no row are dropped *)
+    let '(s4, vs) :=
+      fold_left (fun acc pn =>
+                   let '(st, kept) := acc in
+                   match index_of (fst pn) ps with
+                   | Some k => let (st1, vr) := new_imol st (mkimol false (nth k rs O) (fst pn) []) in
+                               let v := obj_of st1 (snd pn) in
+                               (wr_obj st1 (snd pn) (mkobj vr (o_tc v) (o_views v) (o_hasv v)), kept ++ [pn])
+                   | None => (st, kept)
+                   end) (o_views o) (s3, []) in
+    ok (wr_obj s4 i (mkobj ir (o_tc o) vs true)).
 
 Definition copy_tc (s : state) (i j : nat) : state * option err :=
   ok (wr_tc s (o_tc (obj_of s i)) (tc_of s (o_tc (obj_of s j)))).
@@ -391,7 +408,7 @@ Definition reset_chem (s : state) (i : nat) : state :=
                  match index_of (fst pn) (i_phases im) with
                  | Some k => let (st1, ir) := new_imol st (mkimol false (nth k (arr st d) O) (fst pn) []) in
                              let v := obj_of st1 (snd pn) in
-                             wr_obj st1 (snd pn) (mkobj ir (o_tc v) (o_views v))
+                             wr_obj st1 (snd pn) (mkobj ir (o_tc v) (o_views v) (o_hasv v))
                  | None => st
                  end) (o_views o) s2
   else s2.
@@ -439,6 +456,7 @@ Inductive op :=
 | OLink (i j : nat) (fl ph tp : bool) | OUnlink (i : nat)
 | OCopyLike (i j : nat) | OCopyFlow (i j : nat) | OCopyTC (i j : nat) | OCopyPhase (i j : nat)
 | OMix (i : nat) (srcs : list nat) (energy : bool) (Tnew : Q)
+| OMix1 (i j : nat)      (* mix_from with exactly one non-empty inlet and energy_balance=False *)
 | OView (i : nat) (p : phase)
 | OSetPhases (i : nat) (ps : list phase)
 | OResetCache (i : nat)
@@ -466,7 +484,7 @@ Definition op_objs (o : op) : list nat :=
   | ONew _ _ _ _ _ | ONop => []
   | ORead i _ _ _ | OSetT i _ | OSetP i _ | OSetPhase i _ | OSetFlow i _ _ _ | OScale i _ | OFmol i _ | OEmpty i
   | OProxy i | OFlowProxy i | OCopy i | OUnlink i | OView i _ | OSetPhases i _ | OResetCache i | OSetPkg i _ => [i]
-  | OLink i j _ _ _ | OCopyLike i j | OCopyFlow i j | OCopyTC i j | OCopyPhase i j => [i; j]
+  | OLink i j _ _ _ | OCopyLike i j | OCopyFlow i j | OCopyTC i j | OCopyPhase i j | OMix1 i j => [i; j]
   | OMix i srcs _ _ => i :: srcs
   end.
 
@@ -484,7 +502,7 @@ Definition step_valid (w : world) (o : op) : world * obs :=
                let (sb, a) := new_arr sa rs in
                new_imol sb (mkimol true a O ps)
         end in
-      let (s3, n) := new_obj s2 (mkobj ir tr []) in
+      let (s3, n) := new_obj s2 (mkobj ir tr [] (match flows with [_] => false | _ => true end)) in
       (mkw s3 (new_cobj_fresh c pkg), BIdx n)
   | ORead i name flow nophase => let (w1, r) := get_property w i name flow nophase in (w1, BVal r)
   | OSetT i T => lift w (set_T s i T)
@@ -509,18 +527,22 @@ Definition step_valid (w : world) (o : op) : world * obs :=
   | OCopyPhase i j => lift w (copy_phase s i j)
   | OMix i srcs energy Tnew =>
       (* srcs: the non-empty single-phase inlets, at least two (resolved by the harness) *)
+      (* energy balance: H = sum([i.H for i in streams], Q) is read first (one memo read per inlet) *)
+      let w := if energy then read_all w srcs else w in
+      let c := w_cs w in
       let P := fold_right (fun j m => Qmin m (snd (tc_of s (o_tc (obj_of s j)))))
                           (snd (tc_of s (o_tc (obj_of s (hd O srcs))))) srcs in
       let s1 := fst (set_P s i P) in
       let s2 := mix_flows s1 i srcs in
-      if energy then
-        let w1 := read_all (mkw s2 c) srcs in
-        lift w1 (set_T (w_st w1) i Tnew)
+      if energy then lift (mkw s2 c) (set_T s2 i Tnew)
       else (mkw s2 c, BOk)
+  | OMix1 i j => (mkw (mix_flows s i [j]) c, BOk)     (* self._imol.mix_from([streams[0]._imol]) *)
   | OView i p =>
       let ob := obj_of s i in
       let im := imol_of s (o_imol ob) in
       if i_multi im then
+        if negb (o_hasv ob) then (w, BErr EOther)       (* no _streams attribute: AttributeError *)
+        else
         match find_view p (o_views ob) with
         | Some n => (w, BIdx n)
         | None =>
@@ -531,8 +553,8 @@ Definition step_valid (w : world) (o : op) : world * obs :=
               | None => (w, BErr EIndex)
               | Some rr =>
                 let (s1, ir) := new_imol s (mkimol false rr p []) in
-                let (s2, n) := new_obj s1 (mkobj ir (o_tc ob) []) in
-                let s3 := wr_obj s2 i (mkobj (o_imol ob) (o_tc ob) (o_views ob ++ [(p, n)])) in
+                let (s2, n) := new_obj s1 (mkobj ir (o_tc ob) [] false) in
+                let s3 := wr_obj s2 i (mkobj (o_imol ob) (o_tc ob) (o_views ob ++ [(p, n)]) true) in
                 (mkw s3 (new_cobj_fresh c (c_pkg (cobj_of c i))), BIdx n)
               end
             end
@@ -554,12 +576,12 @@ Definition step_valid (w : world) (o : op) : world * obs :=
                  end
           else (mkw (single_to_multi s i ps) c, BOk)
       end
-  | OResetCache i => (mkw s (reset_cache None s c i), BOk)
+  | OResetCache i => (mkw (ensure_views s i) (reset_cache None s c i), BOk)
   | OSetPkg i pkg =>
       (* _reset_thermo(thermo), thermo is not self._thermo (resolved by the harness), same chemical order:
          thermo replaced, indexer.reset_chemicals, reset_cache() (self and views), views get new indexers and the
          package; no read happens in between, so package and fresh memo are installed together per object *)
-      (mkw (reset_chem s i) (reset_cache (Some pkg) s c i), BOk)
+      (mkw (reset_chem (ensure_views s i) i) (reset_cache (Some pkg) s c i), BOk)
   | ONop => (w, BOk)
   end.
 
